@@ -8,7 +8,7 @@ THEOREMS = [P + t for t in [
     "pattern_pinned", "size_eq_iff", "point_eq_iff", "stretch_eq_iff", "padding_eq_iff", "alignment_eq_iff", "layout_eq_iff",
     "size_eq_imp_hash_eq", "point_eq_imp_hash_eq", "stretch_eq_imp_hash_eq", "padding_eq_imp_hash_eq", "alignment_eq_imp_hash_eq",
     "layout_eq_imp_hash_eq", "size_reject_error_kind", "size_accepts_only_language", "size_accepts_language",
-    "padding_shorthand", "padding_print_order", "size_print_parse", "size_print_parse_exact", "size_print_idempotent"]]
+    "padding_shorthand", "padding_print_order", "size_print_parse", "size_print_parse_exact", "size_print_idempotent", "no_process_wide_memo"]]
 
 ALPHA = ["0", "1", "9", ".", "+", "-", "e", "%", "p", "x", "m", "c", "t", " "]
 LANG = re.compile(r"(?:[0-9]+(?:\.[0-9]+)?(?:px|em|%|c|pt)|0)\Z")
